@@ -526,6 +526,11 @@ fn is_retryable_error(err: &RepeError) -> bool {
                 | std::io::ErrorKind::ConnectionRefused
                 | std::io::ErrorKind::ConnectionReset
                 | std::io::ErrorKind::ConnectionAborted
+                // A cached connection that died while idle (peer closed it, or its
+                // response loop failed on a malformed frame) reports `BrokenPipe` on
+                // the next write. It is a transport failure like the others: drop
+                // the cached client so the next attempt reconnects.
+                | std::io::ErrorKind::BrokenPipe
                 | std::io::ErrorKind::NotConnected
                 | std::io::ErrorKind::UnexpectedEof
                 | std::io::ErrorKind::WouldBlock
